@@ -6,8 +6,8 @@ package actionlint
 //
 // Space: (a) all token sequences up to length n over a 22-token alphabet, rendered with single
 // spaces and (short ones) with every gap closed / widened; (b) all character strings up to length
-// m over the 26 lexically relevant characters; (c) a numeric sub-enumeration; (d) one separator from a 26-character alphabet (blanks, control
-// characters, Unicode spaces, foreign punctuation) at every gap of every token sequence <= 3. Oracle: reference
+// m over the 26 lexically relevant characters; (c) a numeric sub-enumeration; (d) one separator from a 34-character alphabet (blanks, control
+// characters, Unicode spaces, foreign punctuation, non-ASCII letters and digits) at every gap of every token sequence <= 3. Oracle: reference
 // tokeniser + recursive-descent recogniser written from DESIGN appendix A (not from the code).
 
 import (
@@ -726,7 +726,9 @@ func TestVerifC04(t *testing.T) {
 	// (d) one separator character from a wider alphabet (the four blanks of the grammar, other
 	// control characters, Unicode spaces, punctuation outside the grammar) at every gap of every
 	// token sequence of length <= 3: only ' ', \t, \n, \r are white space
-	seps := []string{"\t", "\n", "\r", "\r\n", "\v", "\f", "\x00", "\x1f", "\x7f", "\u00a0", "\u2028", "\u3000", "\ufeff", "#", "$", "@", "~", "^", "%", ";", ":", "?", "/", "\\", "{", "`"}
+	seps := []string{"\t", "\n", "\r", "\r\n", "\v", "\f", "\x00", "\x1f", "\x7f", "\u00a0", "\u2028", "\u3000", "\ufeff", "#", "$", "@", "~", "^", "%", ";", ":", "?", "/", "\\", "{", "`",
+		// letters and digits outside ASCII: none of them starts or continues a token
+		"\u00e9", "\u03a9", "\u01c5", "\u0663", "\uff11", "\u00b2", "\uff41", "\u212a"}
 	for l := 1; l <= 3; l++ {
 		total := int64(1)
 		for i := 0; i < l; i++ {
